@@ -30,5 +30,11 @@ if ! build 2>/verif/bin/build.err; then
     exit 2
   fi
 fi
+if [ "$ID" = "C11" ]; then
+  # auxiliary leg: the same scenario bodies free-running under the race detector
+  if go build -race -tags "$TAGS" $OVERLAY -o /verif/bin/rxs-race . 2>/verif/bin/build-race.err; then
+    export RXS_RACE_BIN=/verif/bin/rxs-race
+  fi
+fi
 "$BIN" "$ID" -tier "$TIER"
 exit $?
